@@ -22,7 +22,7 @@ REQUIRED_REACH = {
     "functional.py": ["linear", "conv1d", "add", "embedding", "scaled_dot_product_attention", "cross_entropy",
                       "mse_loss", "matmul", "layer_norm", "rms_norm", "silu_glu"],
 }
-MIN_NONTRIVIAL = {"quick": 300, "thorough": 5000}
+MIN_NONTRIVIAL = {"quick": 300, "thorough": 30000}
 
 
 def gen_cases(tier: str, seed: int) -> List[Dict[str, Any]]:
